@@ -39,7 +39,11 @@ RULE_ADDED = (
               '. '
               ' '
               'Round 11: the request before may also have been an advanceBlockchain / updateAnc'
-              'estorBlock cut short at one of its exchanges. ')
+              'estorBlock cut short at one of its exchanges. '
+              ' '
+              'Round 14: the previous transaction asked again with one small field or one scrip'
+              't changed (near copies); 8% of the Ledger cases preceded by a uiHeartbeat, faile'
+              'd or not, that leaves the device in the signer. ')
 RULE = RULE + " " + RULE_ADDED.strip()
 ASSUMPTIONS = [
     "device model and fake HID transport are trusted (pv/simdev); they follow the framing only",
